@@ -20,6 +20,7 @@
 -/
 import ICal.Lemmas.CompEq
 import ICal.Props.C01
+import ICal.Lemmas.BodiesWalk
 namespace ICal.C20
 
 /-! ### traversal -/
@@ -264,5 +265,21 @@ example : (sortedTree true rsample).subs.map (fun c => c.props.map (·.name)) =
     [["SUMMARY".toList, "ATTENDEE".toList]] := by decide +kernel
 
 end examples
+
+/-! ## Regenerated function bodies = hand model
+
+  `ICal.Gen.BodiesWalk.Component__walk` / `Component_walk` are written by tools/py2lean.py from the current source
+  of `Component._walk` / `Component.walk` on every run (the recursion over the tree, the loop
+  `result += subcomponent._walk(name, select)`, the test `(name is None or self.name == name) and select(self)`,
+  the upper-casing of the requested name; `select` is a function argument, ASCII upper-casing as in the model).
+  The theorems prove them equal to `walkAux` / `walk`, which the theorems above are about. -/
+
+theorem body__walk (name : Option Str) (sel : Comp → Bool) (c : Comp) :
+    Gen.BodiesWalk.Component__walk c name sel = walkAux name sel c :=
+  Bodies.Component__walk_eq name sel c
+
+theorem body_walk (name : Option Str) (sel : Comp → Bool) (c : Comp) :
+    Gen.BodiesWalk.Component_walk c name sel = walk name sel c :=
+  Bodies.Component_walk_eq name sel c
 
 end ICal.C20
